@@ -335,11 +335,14 @@ func (k Keeper) ConvertGasFeesToUsdc(ctx sdk.Context, baseCurrency string, addre
 			continue
 		}
 
-		tokenOutAmount, err := k.amm.InternalSwapExactAmountIn(ctx, address, address, pool, tokenIn, baseCurrency, math.ZeroInt(), math.LegacyZeroDec())
+		// the swap runs on a cache context: a balance that cannot be converted now (output rounds to zero, the pool
+		// cannot price it because an oracle price is missing, not enough liquidity, ...) is left where it is and
+		// tried again in a later block. Returning the error would fail the end blocker and with it the block.
+		cachedCtx, write := ctx.CacheContext()
+		tokenOutAmount, err := k.amm.InternalSwapExactAmountIn(cachedCtx, address, address, pool, tokenIn, baseCurrency, math.ZeroInt(), math.LegacyZeroDec())
 		if err != nil {
-			// Continue as we can swap it when this amount is higher
+			ctx.Logger().Info("Skipping conversion for denom: " + tokenIn.Denom + ": " + err.Error())
 			if err == ammtypes.ErrTokenOutAmountZero {
-				ctx.Logger().Info("Token out amount is zero(skipping conversion) for denom: " + tokenIn.Denom)
 				ctx.EventManager().EmitEvents(sdk.Events{
 					sdk.NewEvent(
 						types.TypeEvtSkipSwap,
@@ -347,10 +350,10 @@ func (k Keeper) ConvertGasFeesToUsdc(ctx sdk.Context, baseCurrency string, addre
 						sdk.NewAttribute("Token amount", "0"),
 					),
 				})
-				continue
 			}
-			return sdk.Coins{}, err
+			continue
 		}
+		write()
 
 		// Swapped USDC coin
 		swappedCoins := sdk.NewCoins(sdk.NewCoin(baseCurrency, tokenOutAmount))
